@@ -31,8 +31,8 @@ EXPLANATION = (
     "redirects are followed, then ResponseFailed, for L in 0,1,2,3 and the default, and a redirect without Location fails; (c) Authorization / Cookie / "
     "Proxy-Authorization and configured names (in any capitalisation) are never sent to an origin (scheme, host, port) other than the original request's, are kept "
     "on same-origin hops, and other headers always survive - including scheme-relative and port-changing targets; (d) per status code and method of both agents: "
-    "followed / refused, method kept for 307/308 and switched to GET exactly for 303 (and 301/302 of the browser-like agent); known finding F27b: the browser-like "
-    "agent switches POST to GET on 308. Not decided: URL resolution arithmetic of urljoin itself."
+    "followed / refused, method kept for 307/308 and switched to GET exactly for 303 (and 301/302 of the browser-like agent); F27b (the browser-like "
+    "agent switched POST to GET on 308) is fixed; its revert is a mutant. Not decided: URL resolution arithmetic of urljoin itself."
 )
 RULE_KINDS = {
     "limit/dominates-follow": "structural", "limit/count-increases": "structural", "pairing/resolve-base": "structural", "pairing/next-hop-structural": "structural",
@@ -480,7 +480,7 @@ def _methods(ctx):
                 got_m = inner.calls[1][0] if got_follow else None
                 q = Q + agent
                 if code in (307, 308) and got_follow and got_m != method:
-                    continue          # reported by the structural table rule tables/method-preserved-307-308 (known finding F27b for the browser-like agent)
+                    continue          # reported by the structural table rule tables/method-preserved-307-308 (F27b, fixed, for the browser-like agent)
                 ok = got_follow == follow and (not follow or got_m == m2) and (follow or (out[0] == "fail" and out[2] == "PageRedirect")) and (not follow or inner.calls[1][3] is None)
                 ctx.check(ok, "method/status-table", q + f" | {code} {method.decode()}",
                           f"{agent}: {method.decode()} answered with {code}: " + (f"followed as {got_m.decode()}" if got_follow else f"not followed ({out[:3]})") +
@@ -515,6 +515,9 @@ MUTANTS = [
     Mutant("see-other-keeps-method", CL, "            return self._handleRedirect(\n                response, b\"GET\", uri, headers, redirectCount, requestURI\n            )",
            "            return self._handleRedirect(\n                response, method, uri, headers, redirectCount, requestURI\n            )"),
     Mutant("strict-agent-redirects-any-method", CL, "            if method not in (b\"GET\", b\"HEAD\"):\n                err = error.PageRedirect(response.code, location=uri)\n                raise ResponseFailed([Failure(err)], response)\n", ""),
+    Mutant("revert-F27b-browser-like-308-switches-to-get", CL, "    _redirectResponses = [http.TEMPORARY_REDIRECT, http.PERMANENT_REDIRECT]\n    _seeOtherResponses = [\n        http.MOVED_PERMANENTLY,\n        http.FOUND,\n        http.SEE_OTHER,\n    ]",
+           "    _redirectResponses = [http.TEMPORARY_REDIRECT]\n    _seeOtherResponses = [\n        http.MOVED_PERMANENTLY,\n        http.FOUND,\n        http.SEE_OTHER,\n        http.PERMANENT_REDIRECT,\n    ]",
+           expect_rule="tables/method-preserved-307-308"),
     Mutant("strict-agent-307-as-see-other", CL, "        http.FOUND,\n        http.TEMPORARY_REDIRECT,\n        http.PERMANENT_REDIRECT,\n    ]\n    _seeOtherResponses = [http.SEE_OTHER]",
            "        http.FOUND,\n        http.PERMANENT_REDIRECT,\n    ]\n    _seeOtherResponses = [http.SEE_OTHER, http.TEMPORARY_REDIRECT]"),
     Mutant("handover-drops-request-uri", CL, "            return self._handleRedirect(\n                response, method, uri, headers, redirectCount, requestURI\n            )",
